@@ -133,15 +133,15 @@ func (m *expirationMap[V]) cleanup(store store[V], policy *defaultPolicy[V], onE
 
 	for _, keys := range buckets {
 		for key, conflict := range keys {
-			expr := store.Expiration(key)
-			// Sanity check. Verify that the store agrees that this key is expired.
-			if expr.After(now) {
+			// Remove the entry only if the store agrees that it is expired: it
+			// may have been re-written or deleted since its bucket was filled.
+			value, expr, ok := store.DelExpired(key, conflict, now)
+			if !ok {
 				continue
 			}
 
 			cost := policy.Cost(key)
 			policy.Del(key)
-			_, value := store.Del(key, conflict)
 
 			if onEvict != nil {
 				onEvict(&Item[V]{Key: key,
